@@ -275,6 +275,12 @@ class Ctx:
         self.sealed = False
         self.nii = 0
 
+    @property
+    def name(self):
+        """the name of the root folder as the command can know it: from inside a symlinked root ('.' with the root as cwd) only the
+        real name is visible"""
+        return os.path.basename(os.path.realpath(self.access) if self.how in ("dot", "dotslash") else self.access)
+
     def p(self, rel):
         return os.path.join(self.built, rel)
 
@@ -690,7 +696,7 @@ def main():
                     continue
                 run.case(cid, (wid, loc, how, order), sample={"case": cid})
                 c = execute(run, clock, os.path.join(wtmp, f"v{vi}"), world, loc, how, order)
-                got = (c.exits, normalise(collect(c.built), os.path.basename(c.access)))
+                got = (c.exits, normalise(collect(c.built), c.name))
                 desc = f"root at {os.path.relpath(c.access, c.vt)!r} given as {c.arg.replace(c.vt + os.sep, '')!r}" + (
                     f" from cwd {os.path.relpath(c.cwd, c.vt)!r}" if c.cwd else ""
                 ) + f", enumeration order {order}"
@@ -720,7 +726,7 @@ def main():
                             run.violation(cid, f"{where}: verify of {sub!r} exits {code}, at the origin it exits {oc}", "copy/verify-differs", inp=inp)
                     if dh != origin_dh:
                         run.violation(cid, f"{where}: verify -dh exits {dh}, at the origin it exits {origin_dh}", "copy/verify-dh-differs", inp=inp)
-                    got = (ex[2 + len(nroots) :], normalise(files, os.path.basename(c.access)))
+                    got = (ex[2 + len(nroots) :], normalise(files, c.name))
                     compare(run, cid, "copy", cont_res, got, where + ", one more generation", inp)
             shutil.rmtree(wtmp, ignore_errors=True)
     finally:
